@@ -275,3 +275,31 @@ func VerifC07_Positions(L, from, to int) {
 	vAssert(sm["(a:30)->(c:20)"] == p1 && sm["(g:11)->(t:12)"] == p2 && len(sm) == 2, "positions-source-untouched-by-revcomp")
 	vReach("end")
 }
+
+// copies and reverse complements share no mutable annotation state with their source: a map-valued annotation
+// updated in place on one side (as StatsPlusOne does with merged_* maps) leaves the other side unchanged
+func VerifC07_CopyAnnotations(L, viaRevComp int) {
+	seq, _, _ := vMake(L, 0)
+	n := vInt(0, 100)
+	seq.SetAttribute("k", 3)
+	seq.SetAttribute("m", map[string]int{"x": n})
+	var c *BioSequence
+	if viaRevComp == 1 {
+		c = seq.ReverseComplement(false)
+	} else {
+		c = seq.Copy()
+	}
+	cm, okc := c.annotations["m"].(map[string]int)
+	sm, oks := seq.annotations["m"].(map[string]int)
+	vAssert(okc && oks && cm["x"] == n && c.annotations["k"] == 3, "copy-carries-the-annotations")
+	if okc && oks {
+		cm["x"] = n + 1
+		cm["y"] = 5
+		vAssert(sm["x"] == n && len(sm) == 1, "source-annotation-map-survives-update-of-the-copy")
+		sm["x"] = n + 7
+		vAssert(cm["x"] == n+1, "copy-annotation-map-survives-update-of-the-source")
+	}
+	c.SetAttribute("k", 4)
+	vAssert(seq.annotations["k"] == 3, "source-scalar-annotation-survives-update-of-the-copy")
+	vReach("end")
+}
